@@ -48,7 +48,7 @@ INVS = {
 CFG = """SPECIFICATION {spec}
 CONSTANTS Mode = "{mode}" MinKeys = {minkeys} MaxKeys = {maxkeys} MaxLen = {maxlen} MaxEmpty = {maxempty}
           NVals = {nvals} Lists = "{lists}" Opts = "{opts}" NOps = {nops} Shard = {shard} NShards = {nshards}
-          MaxSteps = {maxsteps}
+          MaxSteps = {maxsteps} ShapeUnary = {unary}
 INVARIANT {invs}
 """
 
@@ -68,7 +68,8 @@ class Slice:
     nops: int = 2
     nshards: int = 4
     pandas: bool = False
-    maxsteps: int = 0
+    maxsteps: int = 0  # hist: length of the histories
+    unary: int = 0  # multi: 1 = the sum expressions also have unary MultiSweep(x) nodes
 
     def cfg(self, shard: int, spec: str = "Spec") -> str:
         d = dataclasses.asdict(self)
@@ -77,11 +78,11 @@ class Slice:
 
 QUICK = [
     Slice("single3", "single", 0, 3, opts="some", nshards=3),
-    Slice("pairs3", "multi", 0, 3, opts="two", nops=2, nshards=4),
+    Slice("pairs3", "multi", 0, 3, opts="two", nops=2, nshards=4, unary=1),
     Slice("triples3", "multi", 0, 3, opts="two", nops=3, nshards=5),
     Slice("filter3", "filter", 0, 3, opts="ders2", maxempty=1, nshards=3),
     Slice("count3", "count", 0, 3, opts="two", maxempty=1, nshards=1),
-    Slice("hist3", "hist", 0, 3, nops=3, nshards=8, maxsteps=3),
+    Slice("hist3", "hist", 0, 3, nops=3, nshards=6, maxsteps=3),
 ]
 THOROUGH = [
     Slice("single4", "single", 4, 4, opts="few", nshards=32),
@@ -295,13 +296,18 @@ def check_multi(c: dict, o: dict) -> list:
         raise MachineryError(f"no sum expressions exported for {n} operands")
     for e in SHAPES[n]:
         esig = dict(sig, check="sum_expr", **_expr_feat(e))
-        txt = _expr_text(e)
         first = len(res)
-        _list_check(res, esig, "sum-expression", lambda e=e: _eval_expr(e, mk()).list(), o["concat"], o["ordered"])
-        _list_check(res, esig, "iter(sum-expression)", lambda e=e: list(iter(_eval_expr(e, mk()))), o["concat"], o["ordered"])
-        _len_check(res, dict(esig, check="sum_expr_len", itemless=sig["empty_items_operand"]), "len(sum-expression)",
-                   lambda e=e: len(_eval_expr(e, mk())), o["clen"])
-        res[first:] = [(sg, f"{txt}: {what}", obs) for sg, what, obs in res[first:]]
+        obj, exc = _call(lambda e=e: _eval_expr(e, mk()))  # one object, observed three times
+        if exc:
+            res.append((dict(esig, api="sum-expression", exc=exc, delta="n/a"), f"building it raised {exc}", exc))
+        else:
+            _list_check(res, esig, "sum-expression", obj.list, o["concat"], o["ordered"])
+            _list_check(res, esig, "iter(sum-expression)", lambda: list(iter(obj)), o["concat"], o["ordered"])
+            _len_check(res, dict(esig, check="sum_expr_len", itemless=sig["empty_items_operand"]), "len(sum-expression)",
+                       lambda: len(obj), o["clen"])
+        if len(res) > first:
+            txt = _expr_text(e)
+            res[first:] = [(sg, f"{txt}: {what}", obs) for sg, what, obs in res[first:]]
     return res
 
 
@@ -368,49 +374,69 @@ def _kind(i: int, n: int) -> str:
     return "plain" if i <= n else "sum"
 
 
-def check_hist(c: dict, o: dict) -> list:
-    """Replay the history step by step; after every step EVERY object must enumerate what the store says.
-    Stops at the first step that shows a difference and reports its first difference (result, arguments, others)."""
+def _apply(op: dict, objs: list, sp: str):
     from pipefunc.sweep import MultiSweep
+    args = [objs[i - 1] for i in op["a"]]
+    if op["f"] == "sum":
+        return args[0] + args[1] if sp == "+" else args[0].combine(args[1])
+    return MultiSweep(*args)
+
+
+def _observe(ob, e: dict, sig: dict, ordered: bool) -> list:
+    res: list = []
+    _list_check(res, sig, "list", ob.list, e["combos"], ordered)
+    _list_check(res, sig, "iter", lambda: list(iter(ob)), e["combos"], ordered)
+    _len_check(res, sig, "len", lambda: len(ob), e["len"])
+    return res
+
+
+def check_hist(c: dict, o: dict) -> list:
+    """Replay the history on objects that stay alive; afterwards EVERY object must enumerate what the store says.
+    (Every prefix of the history is a case of its own, so the states in between are observed there.)  When something
+    differs the history is replayed again step by step, observing after every step, to name the first step that shows a
+    difference and the role of the differing object in it (result, left/right argument, other)."""
     ss, sp, ops, exp, ordered = c["ss"], c["sp"], c["ops"], o["objs"], o["ordered"]
     n = len(ss)
+    sig0 = {"check": "history", "spelling": sp, "ordered": ordered}
+
+    def run_all():
+        objs = [build_sweep(s) for s in ss]
+        for op in ops:
+            objs.append(_apply(op, objs, sp))
+        return objs
+
+    objs, exc = _call(run_all)
+    if not exc and not any(_observe(ob, e, sig0, ordered) for ob, e in zip(objs, exp)):
+        return []
     objs = [build_sweep(s) for s in ss]
     for k in range(len(ops) + 1):
-        sig = {"check": "history", "spelling": sp, "ordered": ordered, "step": "init", "left": "n/a", "right": "n/a",
-               "same_arg_twice": False, "arg_sum": False}
+        sig = dict(sig0, step="init", left="n/a", right="n/a", same_arg_twice=False, arg_sum=False)
         roles: dict[int, str] = {}
-        text = "the operands"
         if k:
             op = ops[k - 1]
             a = op["a"]
-            args = [objs[i - 1] for i in a]
             sig.update(step=op["f"], same_arg_twice=len(set(a)) < len(a), arg_sum=any(i > n for i in a))
             if op["f"] == "sum":
                 sig.update(left=_kind(a[0], n), right=_kind(a[1], n))
-                text = f"o{len(objs) + 1} = o{a[0]} + o{a[1]}" if sp == "+" else f"o{len(objs) + 1} = o{a[0]}.combine(o{a[1]})"
-                r, exc = _call((lambda: args[0] + args[1]) if sp == "+" else (lambda: args[0].combine(args[1])))
                 roles = {a[1]: "right", a[0]: "left"}
             else:
-                text = f"o{len(objs) + 1} = MultiSweep({', '.join(f'o{i}' for i in a)})"
-                r, exc = _call(lambda: MultiSweep(*args))
                 roles = {i: "argument" for i in a}
+            r, exc = _call(lambda: _apply(op, objs, sp))
+            hist = "; ".join(_step_text(ops[i], n + i + 1, sp) for i in range(k))
             if exc:
-                return [(dict(sig, target="result", api="step", exc=exc, delta="n/a"), f"step {k} ({text}) raised {exc}", exc)]
+                return [(dict(sig, target="result", api="step", exc=exc, delta="n/a"), f"[{hist}]: the last step raised {exc}", exc)]
             objs.append(r)
             roles[len(objs)] = "result"
-        order = sorted(range(1, len(objs) + 1), key=lambda j: ({"result": 0, "left": 1, "right": 2, "argument": 3}.get(roles.get(j), 4), j))
-        for j in order:
-            res: list = []
-            tsig = dict(sig, target=roles.get(j, "other"))
-            ob, e = objs[j - 1], exp[j - 1]
-            _list_check(res, tsig, "list", ob.list, e["combos"], ordered)
-            _list_check(res, tsig, "iter", lambda ob=ob: list(iter(ob)), e["combos"], ordered)
-            _len_check(res, tsig, "len", lambda ob=ob: len(ob), e["len"])
+        rank = {"result": 0, "left": 1, "right": 2, "argument": 3}
+        for j in sorted(range(1, len(objs) + 1), key=lambda j: (rank.get(roles.get(j), 4), j)):
+            target = roles.get(j, "other")
+            res = _observe(objs[j - 1], exp[j - 1], dict(sig, target=target), ordered)
             if res:
                 sg, what, obs = res[0]
                 hist = "; ".join(_step_text(ops[i], n + i + 1, sp) for i in range(k))
-                return [(sg, f"after [{hist or 'no step'}] object o{j} ({tsig['target']} of step {k}): {what}", obs)]
-    return []
+                return [(sg, f"after [{hist or 'no step'}] object o{j} ({target} of step {k}): {what}", obs)]
+    return [(dict(sig0, step="n/a", target="n/a", api="replay", exc="not-reproducible", delta="n/a"),
+             "a difference seen after the whole history did not show when replaying it step by step", exc or "")]
 
 
 def _step_text(op: dict, new: int, sp: str) -> str:
@@ -646,6 +672,7 @@ def run(ctx: Ctx) -> None:
             results[(r["slice"], r["shard"])] = r
     per_slice: dict[str, int] = {}
     py_s = 0.0
+    py_by_slice: dict[str, float] = {}
     kept: dict[str, list[dict]] = {}
     mismatch_counts: Counter = Counter()
     for sl in slices:
@@ -655,6 +682,7 @@ def run(ctx: Ctx) -> None:
             per_slice[sl.name] = per_slice.get(sl.name, 0) + r["n"]
             ctx.traces_validated += r["n"]
             py_s += r["py_s"]
+            py_by_slice[sl.name] = round(py_by_slice.get(sl.name, 0.0) + r["py_s"], 1)
             for dg, nt in r["cases"]:
                 ctx.case(dg, nontrivial=nt)
             _add_shapes(r["shapes"])
@@ -670,6 +698,7 @@ def run(ctx: Ctx) -> None:
     ctx.exhaustive = True
     ctx.extra["slices"] = [dict(dataclasses.asdict(sl), cases=per_slice[sl.name]) for sl in slices]
     ctx.extra["replay_cpu_s"] = round(py_s, 1)
+    ctx.extra["replay_cpu_s_by_slice"] = py_by_slice
     ctx.extra["mismatches_by_signature"] = [{"sig": json.loads(k), "count": v} for k, v in sorted(mismatch_counts.items())]
     ctx.extra["dont_care"] = ["order of the list when dims is given and not in item order (compared as a multiset)",
                               "product with an operand Sweep({}) (not compared)",
